@@ -111,6 +111,9 @@ impl Responder {
             .make_srep(self.version, SystemTime::now(), &merkle_root);
 
         for (idx, (nonce, src_addr)) in self.requests.iter().enumerate() {
+            #[cfg(roughenough_verif)]
+            crate::verif::point("response", idx as i64);
+
             let paths = self.merkle.get_paths(idx);
             let resp_msg = {
                 let r = self.make_response(&srep, &self.cert_bytes, &paths, idx as u32, nonce);
